@@ -306,7 +306,8 @@ REGISTRY = {
                   ("PsProps.C01", "Ps.Props.C01_crossoff_covers_segment"), ("PsProps.C01", "Ps.Props.C01_segments_tile"), ("PsProps.C01", "Ps.Props.C01_segment_numbers_correct"),
                   ("PsProps.C01", "Ps.Props.C01_segment_source"), ("PsProps.C01", "Ps.Props.C01_feed_complete"),
                   ("PsProps.C01", "Ps.Props.C01_loop_segments_correct"), ("PsProps.C01", "Ps.Props.C01_tiny_feed"),
-                  ("PsProps.C01", "Ps.Props.C01_feed_source")],
+                  ("PsProps.C01", "Ps.Props.C01_feed_source"), ("PsProps.C01", "Ps.Props.C01_tiny_sieve"),
+                  ("PsProps.C01", "Ps.Props.C01_inner_feed_primes")],
         tie=combine(("iter", iter_tie), ("segment", segment_tie), ("wheel", streams.WHEEL.tie), ("cross", streams.CROSS.tie),
                     ("presieve", streams.PRESIEVE.tie)),
         witness=combine_witness(iter_witness, streams.WHEEL.witness, streams.CROSS.witness, streams.PRESIEVE.witness, segment_witness), assumptions=ITER_ASSUME,
@@ -317,7 +318,8 @@ REGISTRY = {
                       "of them over the whole segment loop) are proved; what remains is (a) scheduling: that EratSmall (L1 "
                       "sub-segments) / EratMedium (bucket lists) / EratBig (segment rotation, MemoryPool) perform exactly these walks "
                       "in every segment, and (b) that SievingPrimes::next() delivers the primes of (163, isqrt(stop)] in order - a "
-                      "hypothesis of the theorem (it is the same Erat code one level down, fed by tinySieve) - both tied by the "
+                      "hypothesis of the theorem (it is the same Erat code one level down; its own feed from tinySieve IS proved: "
+                      "C01_tiny_sieve, C01_inner_feed_primes) - both tied by the "
                       "segment and cross streams only"],
         explanation="forward iteration = primeSeq for every start, hint, block policy and float oracle; "
                     "termination of generate_next_primes is the well-founded recursion of genNextFresh"),
